@@ -176,6 +176,20 @@ def c05_fixed_comment_with_ampersand():
     return not fmt.is_free, dict(is_free=fmt.is_free)
 
 
+def c05_labelled_first_statement():
+    """D18: a free-form source whose first statement carries a label in column 1 is detected as fixed form"""
+    from fparser.common.sourceinfo import get_source_info_str
+    fmt = get_source_info_str("10 x = 1\n      y = 2\n")
+    return fmt.is_free, dict(is_free=fmt.is_free)
+
+
+def c05_first_statement_starting_with_c():
+    """D18: a free-form source whose first statement starts with c, C or * in column 1 is detected as fixed form"""
+    from fparser.common.sourceinfo import get_source_info_str
+    fmt = get_source_info_str("call s()\n      y = 2\n      end\n")
+    return fmt.is_free, dict(is_free=fmt.is_free)
+
+
 def c14_directive_backslash_at_eof():
     """D9: a directive whose last line ends in a backslash at end of input is lost"""
     r = _reader("x = 1\n#define X \\\n")
